@@ -769,6 +769,11 @@ func (c *CapGracefulRestart) DecodeFromBytes(data []byte) error {
 }
 
 func (c *CapGracefulRestart) Serialize() ([]byte, error) {
+	// 4 flag bits, 12 bits of restart time: a larger time would spill into
+	// the flags (and cannot be sent as it is)
+	if c.Time > 0x0fff {
+		return nil, fmt.Errorf("graceful restart time %d exceeds 4095", c.Time)
+	}
 	buf := make([]byte, 2, 2+4*len(c.Tuples))
 	binary.BigEndian.PutUint16(buf[0:], uint16(c.Flags)<<12|c.Time)
 	var tbuf [4]byte
